@@ -29,6 +29,7 @@ EXPLANATION = ("a: the linear path of AlphaMemoryIndex::filter* compares with th
 FLOORS = {"key_sites": 6}
 EXPLANATION += " b (added): inside the maintenance loops of insert and create_index the only condition on filing a fact under a field's index is `fact.get(field)` being Some, unfiltered - the same condition under which the linear scan can match it."
 EXPLANATION += ' c (added): no pointer-to-integer cast in the keyed shortcuts (a key must be a function of content, not of an address). b: the position filed by insert is `facts.len()` read before the push, whatever the variable is called.'
+EXPLANATION += ' b (added): no binary search / partition_point over index buckets (they are filled by push in arrival order of caller-supplied positions, not kept sorted).'
 
 AMI = "rete::alpha_memory_index::AlphaMemoryIndex"
 BMI = "rete::optimization::BetaMemoryIndex"
@@ -244,8 +245,26 @@ def _no_address_keys(P, R):
         R.hold("c", "no pointer-to-integer cast in the keyed shortcuts (keys are functions of content, not of addresses)")
 
 
+def _no_order_assumptions(P, R):
+    """b. The buckets of the keyed shortcuts are filled by `push` in whatever order the caller supplies positions (slots are reused,
+    free lists hand out lower indices later): nothing keeps them sorted. A lookup or removal by binary search misses entries in
+    an unsorted bucket - the removed fact stays in the index and keeps being returned."""
+    n = 0
+    for fn in sorted(P.fns.values(), key=lambda f: f.name):
+        if fn.file not in ADDRESS_FILES:
+            continue
+        for c in fn.calls():
+            if c.bb in fn.normal_blocks() and c.name.rsplit("::", 1)[-1] in ("binary_search", "binary_search_by", "binary_search_by_key", "partition_point"):
+                n += 1
+                R.violate("b", "sorted-bucket-assumed:%s" % fn.short_name,
+                          "%s searches an index bucket with %s (line %d), but buckets are filled by push in arrival order of whatever positions the caller hands in (re-used slots come out of order): an entry the search misses is never removed or never found" % (fn.short_name, c.name.rsplit("::", 1)[-1], c.line), fn, c.line)
+    if n == 0:
+        R.hold("b", "no binary search over index buckets (they are not kept sorted)")
+
+
 def _memo(P, R):
     _no_address_keys(P, R)
+    _no_order_assumptions(P, R)
     ev = P.one("rete::memoization::MemoizedEvaluator::evaluate", inline=False)   # the key helpers hash by side effect: keep them as calls
     ins = [c for (c, s) in A.calls_with_receiver_field(ev, "cache", "rete::memoization::MemoizedEvaluator") if c.name.endswith("HashMap::insert")]
     gets = [c for (c, s) in A.calls_with_receiver_field(ev, "cache", "rete::memoization::MemoizedEvaluator") if c.name.endswith("HashMap::get")]
